@@ -15,6 +15,7 @@ import (
 	"os"
 	"path/filepath"
 	"strings"
+	"sync"
 	"testing"
 	"time"
 
@@ -45,7 +46,9 @@ type caseT struct {
 	added bool      // node: the launch mode has added the modules
 	cb    [2]string // what the start- / stop-completion callback does: none | stop | gostop | start
 	log   []string
-	fxT   int  // app: success reports of the stop phase seen so far
+	mu    sync.Mutex     // log (a second goroutine writes only when the code under test misbehaves)
+	wg    sync.WaitGroup // goroutines handed a Stop by a module (script token G)
+	fxT   int            // app: success reports of the stop phase seen so far
 	over  bool // app: the stop phase reported success twice; the case is over
 }
 
@@ -65,11 +68,11 @@ func (noopCreator) Create(name string) {}
 // nodeCfg writes a minimal node configuration: one node, clustering and node control off.  `svc` is
 // the node's service list, one letter per service: P = the service has an entry under `services:`,
 // M = it is named by the node but missing from the services map (tolerated by StartServices: log and skip).
-func nodeCfg(svc string) string {
+func nodeCfg(svc, mode string) string {
 	if !nodeInit {
 		nodeInit = true
 		nodeservice.Factory.Register("c11svc", noopCreator{})
-		baseapp.RegisterLaunchFunc(launchMode, func(app interfaces.IApp) {
+		adder := func(app interfaces.IApp) {
 			c := cur
 			if c == nil || c.added { // a launch mode of our own: it adds the case's modules once
 				return
@@ -78,10 +81,21 @@ func nodeCfg(svc string) string {
 			for _, m := range c.mods {
 				app.AddModule(m)
 			}
-		})
+		}
+		baseapp.RegisterLaunchFunc(launchMode, adder)
+		// the same for a node whose StartMode is empty or names a mode nobody registered (LaunchApp falls back)
+		baseapp.SetDefaultLaunchFunc(adder)
 	}
-	if d, ok := nodeCfgDirs[svc]; ok {
+	key := svc + "/" + mode
+	if d, ok := nodeCfgDirs[key]; ok {
 		return d
+	}
+	startMode := launchMode
+	switch mode {
+	case "empty":
+		startMode = "\"\""
+	case "unreg":
+		startMode = "c11nosuchmode"
 	}
 	dir, err := os.MkdirTemp("", "c11node")
 	if err != nil {
@@ -95,11 +109,11 @@ func nodeCfg(svc string) string {
 			entries = append(entries, "  "+name+":\n    Type: c11svc\n")
 		}
 	}
-	nodes := "---\nnodes:\n  n1:\n    StartMode: " + launchMode + "\n    Address: 127.0.0.1:39511\n    Services: [" + strings.Join(names, ", ") + "]\nservices:\n" + strings.Join(entries, "")
+	nodes := "---\nnodes:\n  n1:\n    StartMode: " + startMode + "\n    Address: 127.0.0.1:39511\n    Services: [" + strings.Join(names, ", ") + "]\nservices:\n" + strings.Join(entries, "")
 	cluster := "---\nEnable: false\nNodeCtrl: false\nName: c11verif\n"
 	os.WriteFile(filepath.Join(dir, "nodes.yaml"), []byte(nodes), 0o644)
 	os.WriteFile(filepath.Join(dir, "cluster.yaml"), []byte(cluster), 0o644)
-	nodeCfgDirs[svc] = dir
+	nodeCfgDirs[key] = dir
 	return dir
 }
 
@@ -117,7 +131,31 @@ func tf(b bool) string {
 	return "F"
 }
 
-func (c *caseT) logf(f string, a ...interface{}) { c.log = append(c.log, fmt.Sprintf(f, a...)) }
+func (c *caseT) logf(f string, a ...interface{}) {
+	c.mu.Lock()
+	c.log = append(c.log, fmt.Sprintf(f, a...))
+	c.mu.Unlock()
+}
+
+// addModule registers one more scripted module with the object under test (AddModule takes the
+// module list's lock: never called from inside Filter's synchronous chain).
+func (c *caseT) addModule(sync bool) {
+	scr := ""
+	if sync {
+		scr = "T"
+	}
+	m := &mod{id: len(c.mods), c: c, scripts: [2]string{scr, scr}}
+	c.mods = append(c.mods, m)
+	c.logf("A%d", m.id)
+	switch c.kind {
+	case 2:
+		c.node.App.AddModule(m)
+	case 1:
+		c.app.AddModule(m)
+	default:
+		c.ml.AddModule(m)
+	}
+}
 
 func (m *mod) Init(rs *runservice.StandardRunService) {}
 
@@ -132,6 +170,33 @@ func (m *mod) run(ph int, next interfaces.FuncWithSucc) {
 		case '!':
 			m.c.logf("%s%d", panicTok[ph], m.id)
 			panic("scripted module panic")
+		case 'A', 'a':
+			m.c.addModule(ch == 'A')
+		case 'X': // the module itself issues Stop
+			m.c.logf("RX")
+			m.c.invoke(1)
+		case 'S':
+			m.c.logf("RS")
+			m.c.invoke(0)
+		case 'G': // ... hands a Stop to another goroutine and gives it a moment
+			c := m.c
+			c.logf("RG")
+			done := make(chan struct{})
+			c.wg.Add(1)
+			go func() {
+				defer c.wg.Done()
+				defer close(done)
+				defer func() {
+					if e := recover(); e != nil {
+						c.logf("panic")
+					}
+				}()
+				c.invoke(1)
+			}()
+			select {
+			case <-done:
+			case <-time.After(50 * time.Millisecond):
+			}
 		}
 	}
 }
@@ -173,7 +238,7 @@ func dispose(c *caseT) {
 }
 
 // guarded runs f on its own goroutine; a panic that escapes the code under test is
-// "panic", no return within 10 s (e.g. a lock never released) is "blocked".
+// "panic", no return within 4 s (e.g. a lock never released) is "blocked".
 func guarded(f func()) string {
 	done := make(chan string, 1)
 	go func() {
@@ -188,7 +253,7 @@ func guarded(f func()) string {
 	select {
 	case r := <-done:
 		return r
-	case <-time.After(10 * time.Second):
+	case <-time.After(4 * time.Second):
 		return "blocked"
 	}
 }
@@ -208,8 +273,19 @@ func phase(ws []string) int {
 // fxT: what follows — the second Cleanup closes a closed channel — is outside the property (it needs
 // a double completion) and is not compared.
 func (c *caseT) segment(extra string) string {
+	if extra == "" { // goroutines that a module handed a Stop to: finished long ago unless the Stop was not refused
+		idle := make(chan struct{})
+		go func() { c.wg.Wait(); close(idle) }()
+		select {
+		case <-idle:
+		case <-time.After(4 * time.Second):
+			extra = "blocked"
+		}
+	}
+	c.mu.Lock()
 	seg := c.log
 	c.log = nil
+	c.mu.Unlock()
 	if extra != "" {
 		seg = append(seg, extra)
 	}
@@ -240,7 +316,9 @@ func (c *caseT) invoke(ph int) {
 		saved[i] = m.next[ph]
 		m.next[ph] = nil
 	}
+	c.mu.Lock()
 	before := len(c.log)
+	c.mu.Unlock()
 	fin := func(succ bool) {
 		c.logf("%s%s", finTok[ph], tf(succ))
 		switch c.cb[ph] {
@@ -276,7 +354,10 @@ func (c *caseT) invoke(ph int) {
 	default:
 		c.ml.Stop(fin)
 	}
-	if len(c.log) == before { // the guard refused: the old phase instance is still the current one
+	c.mu.Lock()
+	refused := len(c.log) == before
+	c.mu.Unlock()
+	if refused { // the guard refused: the old phase instance is still the current one
 		for i, m := range c.mods {
 			m.next[ph] = saved[i]
 		}
@@ -308,7 +389,8 @@ func exec(op string) string {
 		switch c.kind {
 		case 2: // the launch mode adds the modules inside StartNode
 			svc, _ := hx.KV(ws, "svc")
-			dir := nodeCfg(svc)
+			mode, _ := hx.KV(ws, "mode")
+			dir := nodeCfg(svc, mode)
 			c.node = nodeapp.NewNode()
 			c.node.Prepare(dir)
 		case 1:
@@ -345,6 +427,9 @@ func exec(op string) string {
 		nx := c.mods[i].next[ph]
 		if nx == nil {
 			return "noop"
+		}
+		if pre, _ := hx.KV(ws, "pre"); pre == "A" || pre == "a" {
+			c.addModule(pre == "A")
 		}
 		c.logf("%s%d%s", callTok[ph], i, bs)
 		var r string
@@ -389,6 +474,10 @@ func (g *gen) run(op string) string {
 	}
 	for _, t := range strings.Fields(obs) {
 		ph := -1
+		if len(t) >= 2 && t[0] == 'A' && t[1] >= '0' && t[1] <= '9' {
+			g.n++ // a module was registered
+			continue
+		}
 		switch {
 		case strings.HasPrefix(t, "S"), strings.HasPrefix(t, "c"), strings.HasPrefix(t, "fs"), strings.HasPrefix(t, "p") && t != "panic":
 			ph = 0
@@ -489,8 +578,107 @@ func (g *gen) svcOpt(app, k int) string {
 		return ""
 	}
 	p := svcPatterns[k%len(svcPatterns)]
+	mode := []string{"reg", "empty", "unreg"}[(k/2)%3]
 	g.h.Count("node.services." + p)
-	return " svc=" + p
+	g.h.Count("node.launchmode." + mode)
+	return " svc=" + p + " mode=" + mode
+}
+
+// inside: a module itself issues Stop / Start from inside its Start or Stop (directly, or by handing
+// a Stop to another goroutine and waiting briefly for it) before it completes.  On a guarded object
+// every such call is refused: Start only from Prepared, Stop only from Normal, and while modules are
+// being started / stopped the state is Starting / Stoping.  (Not generated for a plain ModList: without
+// a guard the nested call re-enters Filter's lock.)
+func (g *gen) inside() {
+	cases := 0
+	for app := 1; app <= 2; app++ {
+		for n := 1; n <= 3; n++ {
+			for p := 0; p < n; p++ {
+				for _, tok := range []string{"X", "S", "G"} {
+					for ph := 0; ph < 2; ph++ {
+						for delayed := 0; delayed < 2; delayed++ {
+							first := 0 // the module a phase enters first
+							if ph == 1 {
+								first = n - 1
+							}
+							scr := func(i int) string {
+								s := "T"
+								if i == p {
+									s = tok + "T"
+								}
+								if delayed == 1 && i == first {
+									s = strings.TrimSuffix(s, "T") // completes later: the rest of the chain runs outside Filter
+								}
+								return s
+							}
+							st, sp := join(n, scr), join(n, allT)
+							if ph == 1 {
+								st, sp = sp, st
+							}
+							g.run(fmt.Sprintf("reset n=%d app=%d kind=gen start=%s stop=%s%s", n, app, st, sp, g.svcOpt(app, cases)))
+							g.drive(0, allT)
+							g.drive(1, allT)
+							g.run("begin ph=X")
+							cases++
+						}
+					}
+				}
+			}
+		}
+	}
+	g.h.Stats["inside.cases(app,n,pos,call,phase,delayed)"] = cases
+}
+
+// growing: a module registers a further module (AddModule) right before it completes — from its
+// delayed completion (fire pre=) or synchronously inside a chain that runs outside Filter (module 0
+// completes later) — at every position; doNow reads the length live, so the late module is started in
+// order before success is reported, and Stop visits it first.  Also: registration during a stop phase.
+func (g *gen) growing(maxN int) {
+	cases := 0
+	for app := 0; app < 3; app++ {
+		for n := 1; n <= maxN; n++ {
+			for p := 0; p < n; p++ {
+				for _, tok := range []string{"A", "a"} {
+					for v := 0; v < 3; v++ { // 0: delayed adder (fire pre=), 1: synchronous adder (p >= 1), 2: registration during the stop phase
+						if v == 1 && p == 0 {
+							continue
+						}
+						scr := func(i int) string {
+							switch {
+							case v == 0 && i == p, v == 1 && i == 0:
+								return ""
+							case v == 1 && i == p:
+								return tok + "T"
+							}
+							return "T"
+						}
+						stopScr := func(i int) string {
+							if v == 2 && i == p {
+								return ""
+							}
+							return "T"
+						}
+						g.run(fmt.Sprintf("reset n=%d app=%d kind=gen start=%s stop=%s%s", n, app, join(n, scr), join(n, stopScr), g.svcOpt(app, cases)))
+						g.run("begin ph=S")
+						switch v {
+						case 0:
+							g.run(fmt.Sprintf("fire ph=S i=%d b=T via=%s pre=%s", p, vias[cases%3], tok))
+						case 1:
+							g.run(fmt.Sprintf("fire ph=S i=0 b=T via=%s", vias[cases%3]))
+						}
+						g.settle(0, allT)
+						g.run("begin ph=X")
+						if v == 2 {
+							g.run(fmt.Sprintf("fire ph=X i=%d b=T via=%s pre=%s", p, vias[cases%3], tok))
+						}
+						g.settle(1, allT)
+						cases++
+					}
+				}
+			}
+		}
+	}
+	g.h.Stats["growing.cases(app,n,pos,kind,when)"] = cases
 }
 
 // exhaustive: every list length, every failure position (or none), every choice of
@@ -631,6 +819,13 @@ func (g *gen) randomCase() {
 		}
 		cb = fmt.Sprintf(" cbS=%s cbX=%s", []string{"stop", "gostop"}[h.R.Intn(2)], cbX)
 		h.Count("case.callbacks")
+	} else if n >= 2 && h.R.Intn(5) == 0 {
+		// a later module registers a further module before completing; module 0 completes later, so the
+		// registration never runs inside Filter
+		st[0] = ""
+		k := 1 + h.R.Intn(n-1)
+		st[k] = []string{"A", "a"}[h.R.Intn(2)] + strings.TrimLeft(st[k], "!")
+		h.Count("case.sync-addmodule")
 	}
 	g.run(fmt.Sprintf("reset n=%d app=%d kind=%s start=%s stop=%s%s%s", n, app, kind, strings.Join(st, ","), strings.Join(sp, ","), cb, g.svcOpt(app, h.R.Intn(len(svcPatterns)))))
 	steps := 2 + h.R.Intn(10)
@@ -668,7 +863,12 @@ func (g *gen) randomCase() {
 			if h.R.Intn(6) == 0 {
 				b = "F"
 			}
-			g.run(fmt.Sprintf("fire ph=%s i=%d b=%s via=%s", phName[ph], out[0], b, vias[h.R.Intn(3)]))
+			pre := ""
+			if h.R.Intn(12) == 0 {
+				pre = " pre=" + []string{"A", "a"}[h.R.Intn(2)]
+				h.Count("op.fire.with-addmodule")
+			}
+			g.run(fmt.Sprintf("fire ph=%s i=%d b=%s via=%s%s", phName[ph], out[0], b, vias[h.R.Intn(3)], pre))
 			h.Count("op.fire.outstanding")
 		default:
 			// negative stream: any module, any phase, again and again, also ones that were never entered
@@ -756,6 +956,8 @@ func TestRun(t *testing.T) {
 	}
 	g.exhaustive(hx.EnvInt("VERIF_MAXN", maxN))
 	g.reentrant(4)
+	g.inside()
+	g.growing(4)
 	n := hx.EnvInt("VERIF_N", 1500)
 	for i := 0; i < n; i++ {
 		g.randomCase()
